@@ -63,6 +63,10 @@ class Gadget:
         """park it for the night"""
 
     def _get_hdoc_method_notes(self, bound_method, _c):
+        if bound_method.__name__ == 'park':
+            # (notes made for this request, in the colours of the palette that is handed in: a line of blanks keeps the
+            # place of a note free)
+            return BoundMethodNotes(True, "", CHText(_c.warn("   ")))
         return self._NOTES_OK if bound_method.__name__ == 'start' else self._NOTES_NA
 
 
@@ -100,7 +104,7 @@ def build_object(spec, shared):
         return ReposCollection({'r': mg.TRepo('r', repo, 'origin')}).make_report(spec['text'])
     if kind == 'hdoc':
         if spec.get('target') in ('gadget', 'gadget-method'):
-            return Gadget() if spec['target'] == 'gadget' else Gadget().stop
+            return Gadget() if spec['target'] == 'gadget' else Gadget().stop if spec.get('level', 1) % 2 else Gadget().park
         if spec.get('target') == 'method':
             return Caller("http://h").m1      # a method that is not available in this object (auth type)
         return Caller("http://h") if spec['bound'] else Caller
@@ -271,6 +275,11 @@ def render(obj, ospec, req, conf_dict, live_conf=None, observe=None):
             return out[3:-4] if out.startswith("___") and out.endswith("____") else "<filler misplaced>" + out
         if req['mode'] == 'format':
             return format(res, "")
+        if req['mode'] == 'zero_width':
+            # the width of the field is written with a leading zero (as "%03d"-minded callers do): for a text that is
+            # a width like any other - the same in colour and without
+            out = format(res, "0%d" % (len(res) + 6))
+            return out[:-6] if out.endswith(" " * 6) else "<filler misplaced>" + out
         if req['mode'] == 'plain':
             return res.plain_text() if no_color else str(res)
         if req['mode'] == 'slice':
